@@ -6,46 +6,48 @@ import IrefVerif.Lemmas.IriBytes
 import IrefVerif.Props.Valid
 
 /-!
-# C15 — relativisation round-trips through resolution   (PARTIAL — open finding F12)
+# C15 — relativisation round-trips through resolution   (PARTIAL — what is left of F12)
 
-Full statement (not proved, and false of the code):
-  `∀ a b valid, key (resolve (relative_to a b) b) = key a`.
-`RiRefImpl::relative_to` lacks the branches this needs (authority present on one side only,
-a path that is a proper prefix of the base's directory, the base's query, absolute against
-relative paths, …): on the generated pairs roughly 40 % do not round-trip.  The class of failing
-pairs is `Findings.f12` — by definition the pairs on which the *modelled* algorithm does not
-round-trip — so what is proved below is the part of the statement that does hold: (i) for
-every pair of valid references of either family the model of `relative_to` never panics and
-returns a valid reference of the same family (`relative_to_total_valid_partial`: the authority
-comparison and the common-prefix loop are total on well-escaped components, every `push`/`clear`
-through `path_mut()` keeps the buffer valid by `C04.path_session`, query and fragment are set by
-the setters of C04), the inputs being unchanged because the model is a pure function; and (ii)
-the scheme-mismatch branch returns `a` itself; and (iii) **the round trip itself on the class the
-function was written for** (`roundtrip_on_class_partial`): same scheme, equal authorities, absolute
-paths (the base's may also be empty), a non-empty remainder of `a`'s normalised segments after the
-common prefix with the base's directory, which does not begin with an empty segment unless that
-common prefix is itself non-empty (and, when `a` has a query or a
-fragment, the relative path must not coincide with the base's last segment — the one special case
-of the code).  There `a.relative_to(b)` is
-`../` for every remaining segment of the base's directory followed by that remainder
-(`relative_to_on_class`), and resolving it against `b` gives a URI/IRI equal to `a`
-(`Lemmas/RelativeRoundTrip.lean`, through `C06.resolve_relative_authority`).  The check judges the implementation with the
-round-trip oracle on every generated pair, reports F12 as KNOWN-FINDING, and raises a
-violation for any failing pair outside `f12` or any difference between model and
-implementation.
+Full statement: `∀ a b valid, key (resolve (relative_to a b) b) = key a`.
+`RiRefImpl::relative_to` as found did not round-trip on roughly 40 % of the generated pairs (F12:
+an authority on one side only, a target above the base, the base's query inherited, absolute
+against relative paths, …).  It was repaired in /repo (the common prefix is taken over directories
+only, the last segment of the target is always written, the root is written as `./` or `..`,
+mismatching authorities / absoluteness / climbing relative paths / an empty segment that resolution
+would drop (F15) give back the whole of `a`, normalised in place).  What is left of F12 is a class
+that depends on `a` alone and that no implementation can serve, because `==` reads such an `a`
+differently from every path resolution can produce (`Findings.f12`).
+
+Proved on the model of the repaired function: (i) for every pair of valid references of either
+family it never panics and returns a valid reference of the same family, one the checked
+constructor accepts (`relative_to_total_valid`, `uri_/iri_relative_to_accepted`): every fallback is
+the in-place normalisation of a valid reference (C04), every `push`/`clear` through `path_mut()`
+keeps the buffer valid, query and fragment are set by the setters of C04; the inputs are unchanged
+because the model is a pure function; (ii) with different schemes the result is the whole of `a`
+normalised in place (`relative_to_scheme_mismatch`); (iii) **the round trip itself**
+(`roundtrip_on_class_partial`) for same scheme, equal authorities, absolute paths (the base's may
+also be empty), a target that is not the root, the "same document" shortcut not taken, and a
+remainder that does not begin with an empty segment unless a common directory precedes it.  There
+`a.relative_to(b)` is `../` for every remaining segment of the base's directory followed by the
+remainder of `a` (`relative_to_on_class`), and resolving it against `b` gives a URI/IRI equal to `a`
+(`Lemmas/RelativeRoundTrip.lean`, through `C06.resolve_relative_authority`); the class is disjoint
+from `f12` (`class_outside_f12`).  PARTIAL: outside that class (bases without authority, the root,
+the shortcut, the fallbacks) the round trip is judged on the implementation by the oracle on every
+generated pair: a failing pair outside `f12`, or any difference between model and implementation,
+is a violation.
 -/
 
 namespace IrefVerif.Props.C15
 open IrefVerif IrefVerif.Spec IrefVerif.Model
 
-/-- different schemes: the result is `a` itself (an absolute reference) — partial -/
-theorem relative_to_scheme_mismatch_partial (a b : Text) (sa sb : Text)
+/-- different schemes: the result is the whole of `a`, its path normalised in place -/
+theorem relative_to_scheme_mismatch (a b : Text) (sa sb : Text)
     (ha : Ref.scheme_opt a = some sa) (hb : Ref.scheme_opt b = some sb) (hne : (sa != sb) = true) :
-    Ref.relative_to a b = some a := by
+    Ref.relative_to a b = Ref.whole a := by
   unfold Ref.relative_to
   simp [ha, hb, hne]
 
-/-- **never panics, valid result** (the round trip itself is F12) — partial -/
+/-- **never panics, valid result**, every pair -/
 theorem relative_to_total_valid_partial (G : Grammar) (ok : Lemmas.Grammar.Ok G) (okp : Lemmas.Grammar.OkPath G)
     (oka : Lemmas.Grammar.OkAuth G) (we : Lemmas.Grammar.OkWE G) (a b : Text)
     (ha : RE.Matches G.reference a) (hb : RE.Matches G.reference b) :
@@ -79,45 +81,38 @@ theorem iri_relative_to_accepted_partial (a b : Text) (ha8 : ∀ c ∈ a, c < 25
   obtain ⟨r, e, hv⟩ := iri_relative_to_total_partial a b ha8 hb8 ha hb
   exact ⟨r, e, Valid.iriRef_of_octets r hv⟩
 
-/-- **the round trip holds on the class** — partial (outside it: F12) -/
+/-- **the round trip holds on the class** — partial (the statement for every pair outside `f12` is
+judged on the implementation) -/
 theorem roundtrip_on_class_partial (G : Grammar) (ok : Lemmas.Grammar.Ok G) (okp : Lemmas.Grammar.OkPath G)
     (oka : Lemmas.Grammar.OkAuth G) (we : Lemmas.Grammar.OkWE G) (a b aa ab : Text)
     (ha : RE.Matches G.full a) (hb : RE.Matches G.full b)
     (hsch : (split a).scheme = (split b).scheme)
     (haa : (split a).authority = some aa) (hab : (split b).authority = some ab) (hauth : authKey aa = authKey ab)
     (hpa : isAbs (split a).path = true) (hpb : isAbs (split b).path = true ∨ (split b).path = [])
+    (hne : nsegs (split a).path ≠ [])
+    (hcls : (!(Lemmas.remainder a b).2.2 && (Lemmas.remainder a b).1.head? == some []) = false)
     (hnsp : (((split a).query.isSome || (split a).fragment.isSome) &&
-      some (Lemmas.renderRel
-        (((Ref.dropCommon (nsegs (split a).path) (nsegs (Path.parent_or_empty (split b).path))).2.map fun _ => segDotDot) ++
-          (Ref.dropCommon (nsegs (split a).path) (nsegs (Path.parent_or_empty (split b).path))).1))
-        == Path.last (split b).path) = false)
-    (hrem : (Ref.dropCommon (nsegs (split a).path) (nsegs (Path.parent_or_empty (split b).path))).1 ≠ [] ∧
-      ((Ref.dropCommon (nsegs (split a).path) (nsegs (Path.parent_or_empty (split b).path))).2.length
-          < (nsegs (Path.parent_or_empty (split b).path)).length ∨
-        (Ref.dropCommon (nsegs (split a).path) (nsegs (Path.parent_or_empty (split b).path))).1.head? ≠ some [])) :
+      ((split a).query.isSome || (split b).query.isNone) &&
+      some (Lemmas.renderRel (Lemmas.relSegs a b)) == Path.last (split b).path) = false) :
     ∃ r t, Ref.relative_to a b = some r ∧ Ref.resolve r b = some t ∧ key t = key a :=
-  Lemmas.relative_roundtrip G ok okp oka we a b aa ab ha hb hsch haa hab hauth hpa hpb hnsp hrem
+  Lemmas.relative_roundtrip G ok okp oka we a b aa ab ha hb hsch haa hab hauth hpa hpb hne hcls hnsp
 
-/-- … so the class is disjoint from the class recorded for the open finding F12 -/
-theorem class_outside_f12 (G : Grammar) (ok : Lemmas.Grammar.Ok G) (okp : Lemmas.Grammar.OkPath G)
-    (oka : Lemmas.Grammar.OkAuth G) (we : Lemmas.Grammar.OkWE G) (a b aa ab : Text)
-    (ha : RE.Matches G.full a) (hb : RE.Matches G.full b)
-    (hsch : (split a).scheme = (split b).scheme)
-    (haa : (split a).authority = some aa) (hab : (split b).authority = some ab) (hauth : authKey aa = authKey ab)
-    (hpa : isAbs (split a).path = true) (hpb : isAbs (split b).path = true ∨ (split b).path = [])
-    (hnsp : (((split a).query.isSome || (split a).fragment.isSome) &&
-      some (Lemmas.renderRel
-        (((Ref.dropCommon (nsegs (split a).path) (nsegs (Path.parent_or_empty (split b).path))).2.map fun _ => segDotDot) ++
-          (Ref.dropCommon (nsegs (split a).path) (nsegs (Path.parent_or_empty (split b).path))).1))
-        == Path.last (split b).path) = false)
-    (hrem : (Ref.dropCommon (nsegs (split a).path) (nsegs (Path.parent_or_empty (split b).path))).1 ≠ [] ∧
-      ((Ref.dropCommon (nsegs (split a).path) (nsegs (Path.parent_or_empty (split b).path))).2.length
-          < (nsegs (Path.parent_or_empty (split b).path)).length ∨
-        (Ref.dropCommon (nsegs (split a).path) (nsegs (Path.parent_or_empty (split b).path))).1.head? ≠ some [])) :
+/-- … and the class is disjoint from what is left of F12 -/
+theorem class_outside_f12 (a b : Text) (hpa : isAbs (split a).path = true)
+    (hcls : (!(Lemmas.remainder a b).2.2 && (Lemmas.remainder a b).1.head? == some []) = false) :
     Findings.f12 a b = false := by
-  obtain ⟨r, t, e1, e2, hk⟩ := roundtrip_on_class_partial G ok okp oka we a b aa ab ha hb hsch haa hab hauth hpa hpb hnsp hrem
   unfold Findings.f12
-  simp [e1, e2, hk]
+  simp only [hpa, Bool.not_true, Bool.false_and, Bool.or_false]
+  by_cases h : nsegs (split a).path = [[]]
+  · exfalso
+    unfold Lemmas.remainder at hcls
+    rw [h] at hcls
+    have : Ref.dropCommon [[]] (nsegs (Path.parent_or_empty (split b).path)) =
+        ([[]], nsegs (Path.parent_or_empty (split b).path), false) := by
+      cases nsegs (Path.parent_or_empty (split b).path) <;> rfl
+    rw [this] at hcls
+    simp at hcls
+  · simpa using h
 
 /-- what `relative_to` returns there -/
 theorem relative_to_on_class (G : Grammar) (ok : Lemmas.Grammar.Ok G) (okp : Lemmas.Grammar.OkPath G)
@@ -126,16 +121,14 @@ theorem relative_to_on_class (G : Grammar) (ok : Lemmas.Grammar.Ok G) (okp : Lem
     (hsch : (split a).scheme = (split b).scheme)
     (haa : (split a).authority = some aa) (hab : (split b).authority = some ab) (hauth : authKey aa = authKey ab)
     (hpa : isAbs (split a).path = true) (hpb : isAbs (split b).path = true ∨ (split b).path = [])
+    (hne : nsegs (split a).path ≠ [])
+    (hcls : (!(Lemmas.remainder a b).2.2 && (Lemmas.remainder a b).1.head? == some []) = false)
     (hnsp : (((split a).query.isSome || (split a).fragment.isSome) &&
-      some (Lemmas.renderRel
-        (((Ref.dropCommon (nsegs (split a).path) (nsegs (Path.parent_or_empty (split b).path))).2.map fun _ => segDotDot) ++
-          (Ref.dropCommon (nsegs (split a).path) (nsegs (Path.parent_or_empty (split b).path))).1))
-        == Path.last (split b).path) = false) :
-    Ref.relative_to a b = some (recompose (Lemmas.pathQF (Lemmas.renderRel
-      (((Ref.dropCommon (nsegs (split a).path) (nsegs (Path.parent_or_empty (split b).path))).2.map fun _ => segDotDot) ++
-        (Ref.dropCommon (nsegs (split a).path) (nsegs (Path.parent_or_empty (split b).path))).1))
+      ((split a).query.isSome || (split b).query.isNone) &&
+      some (Lemmas.renderRel (Lemmas.relSegs a b)) == Path.last (split b).path) = false) :
+    Ref.relative_to a b = some (recompose (Lemmas.pathQF (Lemmas.renderRel (Lemmas.relSegs a b))
       (split a).query (split a).fragment)) :=
-  Lemmas.relative_to_explicit G ok okp oka we a b aa ab ha hb hsch haa hab hauth hpa hpb hnsp
+  Lemmas.relative_to_explicit G ok okp oka we a b aa ab ha hb hsch haa hab hauth hpa hpb hne hcls hnsp
 
 /-- end to end, URI family: accepted `Uri`s in the class -/
 theorem uri_roundtrip_on_class_partial (a b aa ab : Text) (ha8 : ∀ c ∈ a, c < 256) (hb8 : ∀ c ∈ b, c < 256)
@@ -143,18 +136,14 @@ theorem uri_roundtrip_on_class_partial (a b aa ab : Text) (ha8 : ∀ c ∈ a, c 
     (hsch : (split a).scheme = (split b).scheme)
     (haa : (split a).authority = some aa) (hab : (split b).authority = some ab) (hauth : authKey aa = authKey ab)
     (hpa : isAbs (split a).path = true) (hpb : isAbs (split b).path = true ∨ (split b).path = [])
+    (hne : nsegs (split a).path ≠ [])
+    (hcls : (!(Lemmas.remainder a b).2.2 && (Lemmas.remainder a b).1.head? == some []) = false)
     (hnsp : (((split a).query.isSome || (split a).fragment.isSome) &&
-      some (Lemmas.renderRel
-        (((Ref.dropCommon (nsegs (split a).path) (nsegs (Path.parent_or_empty (split b).path))).2.map fun _ => segDotDot) ++
-          (Ref.dropCommon (nsegs (split a).path) (nsegs (Path.parent_or_empty (split b).path))).1))
-        == Path.last (split b).path) = false)
-    (hrem : (Ref.dropCommon (nsegs (split a).path) (nsegs (Path.parent_or_empty (split b).path))).1 ≠ [] ∧
-      ((Ref.dropCommon (nsegs (split a).path) (nsegs (Path.parent_or_empty (split b).path))).2.length
-          < (nsegs (Path.parent_or_empty (split b).path)).length ∨
-        (Ref.dropCommon (nsegs (split a).path) (nsegs (Path.parent_or_empty (split b).path))).1.head? ≠ some [])) :
+      ((split a).query.isSome || (split b).query.isNone) &&
+      some (Lemmas.renderRel (Lemmas.relSegs a b)) == Path.last (split b).path) = false) :
     ∃ r t, Ref.relative_to a b = some r ∧ Ref.resolve r b = some t ∧ key t = key a :=
   roundtrip_on_class_partial uriG Lemmas.uriG_ok Lemmas.uriG_okPath Lemmas.uriG_okAuth Lemmas.uriG_okWE a b aa ab
-    (Valid.uri_octets a ha8 ha) (Valid.uri_octets b hb8 hb) hsch haa hab hauth hpa hpb hnsp hrem
+    (Valid.uri_octets a ha8 ha) (Valid.uri_octets b hb8 hb) hsch haa hab hauth hpa hpb hne hcls hnsp
 
 /-- … IRI family (octets) -/
 theorem iri_roundtrip_on_class_partial (a b aa ab : Text) (ha8 : ∀ c ∈ a, c < 256) (hb8 : ∀ c ∈ b, c < 256)
@@ -162,18 +151,14 @@ theorem iri_roundtrip_on_class_partial (a b aa ab : Text) (ha8 : ∀ c ∈ a, c 
     (hsch : (split a).scheme = (split b).scheme)
     (haa : (split a).authority = some aa) (hab : (split b).authority = some ab) (hauth : authKey aa = authKey ab)
     (hpa : isAbs (split a).path = true) (hpb : isAbs (split b).path = true ∨ (split b).path = [])
+    (hne : nsegs (split a).path ≠ [])
+    (hcls : (!(Lemmas.remainder a b).2.2 && (Lemmas.remainder a b).1.head? == some []) = false)
     (hnsp : (((split a).query.isSome || (split a).fragment.isSome) &&
-      some (Lemmas.renderRel
-        (((Ref.dropCommon (nsegs (split a).path) (nsegs (Path.parent_or_empty (split b).path))).2.map fun _ => segDotDot) ++
-          (Ref.dropCommon (nsegs (split a).path) (nsegs (Path.parent_or_empty (split b).path))).1))
-        == Path.last (split b).path) = false)
-    (hrem : (Ref.dropCommon (nsegs (split a).path) (nsegs (Path.parent_or_empty (split b).path))).1 ≠ [] ∧
-      ((Ref.dropCommon (nsegs (split a).path) (nsegs (Path.parent_or_empty (split b).path))).2.length
-          < (nsegs (Path.parent_or_empty (split b).path)).length ∨
-        (Ref.dropCommon (nsegs (split a).path) (nsegs (Path.parent_or_empty (split b).path))).1.head? ≠ some [])) :
+      ((split a).query.isSome || (split b).query.isNone) &&
+      some (Lemmas.renderRel (Lemmas.relSegs a b)) == Path.last (split b).path) = false) :
     ∃ r t, Ref.relative_to a b = some r ∧ Ref.resolve r b = some t ∧ key t = key a :=
   roundtrip_on_class_partial Lemmas.iriGB Lemmas.iriGB_ok Lemmas.iriGB_okPath Lemmas.iriGB_okAuth Lemmas.iriGB_okWE
-    a b aa ab (Valid.iri_octets a ha8 ha) (Valid.iri_octets b hb8 hb) hsch haa hab hauth hpa hpb hnsp hrem
+    a b aa ab (Valid.iri_octets a ha8 ha) (Valid.iri_octets b hb8 hb) hsch haa hab hauth hpa hpb hne hcls hnsp
 
 /-- the hypotheses are satisfiable: `s://h/a/b/c#f` relative to `s://h/a/d/e` -/
 example :
@@ -181,7 +166,7 @@ example :
     let b : Text := [0x73,0x3A,0x2F,0x2F,0x68,0x2F,0x61,0x2F,0x64,0x2F,0x65]
     (split a).scheme = (split b).scheme ∧ (split a).authority = some [0x68] ∧ (split b).authority = some [0x68] ∧
     isAbs (split a).path = true ∧ isAbs (split b).path = true ∧ (split a).fragment = some [0x66] ∧
-    (Ref.dropCommon (nsegs (split a).path) (nsegs (Path.parent_or_empty (split b).path))).1 = [[0x62], [0x63]] ∧
+    Lemmas.remainder a b = ([[0x62], [0x63]], [[0x64]], true) ∧
     Ref.relative_to a b = some [0x2E,0x2E,0x2F,0x62,0x2F,0x63,0x23,0x66] := by decide
 
 /-- the class contains a directory relative to a file in it: `s://h/a/` relative to `s://h/a/b` is `./` -/
@@ -192,11 +177,16 @@ example : Ref.relative_to [0x73,0x3A,0x2F,0x2F,0x68,0x2F,0x61,0x2F] [0x73,0x3A,0
 example : Ref.relative_to [0x73,0x3A,0x2F,0x2F,0x68,0x2F,0x61,0x2F,0x62] [0x73,0x3A,0x2F,0x2F,0x68]
     = some [0x61,0x2F,0x62] := by decide
 
-/-- negative witnesses of F12 on the model (and, by correspondence, on the code) -/
-example : Findings.f12 [0x73, 0x3A] [0x73, 0x3A, 0x2F, 0x2F, 0x68, 0x2F, 0x61] = true := by decide
-example : Findings.f12 [0x73, 0x3A, 0x2F] [0x73, 0x3A, 0x2F, 0x61] = true := by decide
-/-- and pairs of the documented examples that do round-trip -/
-example : Findings.f12 [0x73, 0x3A, 0x2F, 0x2F, 0x68, 0x2F, 0x61, 0x2F, 0x62]
-    [0x73, 0x3A, 0x2F, 0x2F, 0x68, 0x2F, 0x61, 0x2F, 0x63] = false := by decide
+/-- the witnesses of the repaired part of F12, on the model of the repaired code: an authority on
+one side only (`s:` relative to `s://h/a` is `s:`), a target above the base (`s:/` relative to
+`s:/a` is `./`), the base's query (`s:` relative to `s:?q` is `./`) -/
+example : Ref.relative_to [0x73, 0x3A] [0x73, 0x3A, 0x2F, 0x2F, 0x68, 0x2F, 0x61] = some [0x73, 0x3A] ∧
+    Ref.relative_to [0x73, 0x3A, 0x2F] [0x73, 0x3A, 0x2F, 0x61] = some [0x2E, 0x2F] ∧
+    Ref.relative_to [0x73, 0x3A] [0x73, 0x3A, 0x3F, 0x71] = some [0x2E, 0x2F] := by decide
+
+/-- witnesses of what is left of F12: `s://h//.` and `s:./..` are in the class, `s://h/a/.` is not -/
+example : Findings.f12 [0x73,0x3A,0x2F,0x2F,0x68,0x2F,0x2F,0x2E] [] = true ∧
+    Findings.f12 [0x73,0x3A,0x2E,0x2F,0x2E,0x2E] [] = true ∧
+    Findings.f12 [0x73,0x3A,0x2F,0x2F,0x68,0x2F,0x61,0x2F,0x2E] [] = false := by decide
 
 end IrefVerif.Props.C15
